@@ -13,5 +13,6 @@ INVARIANT ScaleExact
 INVARIANT NoLeak
 INVARIANT ColumnsSeparate
 INVARIANT RowsAligned
+INVARIANT RowsComplete
 VIEW core
 CHECK_DEADLOCK FALSE
